@@ -58,4 +58,11 @@ theorem writeVtu_parts (F : WFields) (file : VtuFile) (h : writeVtu id F = some 
     · cases h
   · cases h
 
+/-- an array the round trip is claimed for: well-formed (`WArr.wf`: registered item size, `rows·∏tail` items, every
+    bit pattern fits the item size), one of the ten numeric dtypes, fewer than 2^64 payload bytes -/
+structure ArrOk (a : WArr) : Prop where
+  wf : a.wf = true
+  small : a.items.length * dtypeSize a.dt < 256 ^ 8
+  reg : a.dt ∈ ["int8", "int16", "int32", "int64", "uint8", "uint16", "uint32", "uint64", "float32", "float64"]
+
 end Fc.W
